@@ -23,12 +23,13 @@ type SpecEnv struct {
 	fn     *ssa.Function
 	at     *ssa.BasicBlock
 	locals bool
+	bound  map[string]bool
 }
 
 var untypedInt = types.Typ[types.UntypedInt]
 
 func (f *Frame) specEnv(cur, old *State) *SpecEnv {
-	env := &SpecEnv{f: f, c: f.c, vars: map[string]Val{}, cur: cur, old: old, pkg: f.fn.Pkg, fn: f.fn, locals: true}
+	env := &SpecEnv{f: f, c: f.c, vars: map[string]Val{}, bound: map[string]bool{}, cur: cur, old: old, pkg: f.fn.Pkg, fn: f.fn, locals: true}
 	if env.pkg == nil && f.fn.Parent() != nil {
 		p := f.fn
 		for p.Parent() != nil {
@@ -47,6 +48,10 @@ func (e *SpecEnv) clone() *SpecEnv {
 	n.vars = map[string]Val{}
 	for k, v := range e.vars {
 		n.vars[k] = v
+	}
+	n.bound = map[string]bool{}
+	for k := range e.bound {
+		n.bound[k] = true
 	}
 	return &n
 }
@@ -96,6 +101,11 @@ func (e *SpecEnv) coerceBV(v Val, t types.Type) Val {
 		return v
 	}
 	if isUntyped(v) {
+		if v.T == "?ite" && len(v.Bind) == 3 {
+			a := e.coerceBV(v.Bind[1], t)
+			b := e.coerceBV(v.Bind[2], t)
+			return Val{T: ite(v.Bind[0].T, a.T, b.T), Typ: t}
+		}
 		n, _ := new(big.Int).SetString(v.T, 10)
 		if n == nil {
 			return v
@@ -216,6 +226,9 @@ func (e *SpecEnv) term(x Expr) (Val, error) {
 		}
 		if _, ok := intInfoOf(a.Typ); ok {
 			var t types.Type
+			if c.Mode == ModeBV && isUntyped(a) && isUntyped(b) {
+				return Val{T: "?ite", Typ: untypedInt, Bind: []Val{{T: cnd}, a, b}}, nil
+			}
 			a, b, t, err = e.unifyInts(a, b)
 			if err != nil {
 				return Val{}, err
@@ -236,6 +249,7 @@ func (e *SpecEnv) term(x Expr) (Val, error) {
 			nm := "q$" + bv.Name
 			binds = append(binds, "("+nm+" "+c.sortOf(t)+")")
 			ne.vars[bv.Name] = Val{T: nm, Typ: t}
+			ne.bound[bv.Name] = true
 			if t != mathInt {
 				if _, isInt := intInfoOf(t); !isInt {
 					guards = append(guards, c.typeFacts(nm, t, ""))
@@ -366,17 +380,18 @@ func (e *SpecEnv) binary(n *EBin) (Val, error) {
 			}
 			return Val{T: "(div " + a.T + " " + p + ")", Typ: mathInt}, nil
 		}
-		c.declFun("pow2", []string{"Int"}, "Int")
-		if !c.declared["pow2axioms"] {
-			c.declared["pow2axioms"] = true
-			for i := 0; i <= 64; i++ {
-				c.Decls = append(c.Decls, fmt.Sprintf("(assert (= (pow2 %d) %s))", i, pow2(i).String()))
-			}
+		// symbolic amount: uninterpreted (keeps the problem linear); typed
+		// operands share the function used for the program's own shifts
+		if ii, ok := intInfoOf(a.Typ); ok && ii.bits > 0 {
+			tm, _ := c.arith(tokenOf(n.Op), a, Val{T: b.T, Typ: types.Typ[types.Uint64]}, nil, nil, a.Typ)
+			return Val{T: tm, Typ: a.Typ}, nil
 		}
-		if n.Op == "<<" {
-			return Val{T: "(* " + a.T + " (pow2 " + b.T + "))", Typ: mathInt}, nil
+		fn := "shl$math"
+		if n.Op == ">>" {
+			fn = "shr$math"
 		}
-		return Val{T: "(div " + a.T + " (pow2 " + b.T + "))", Typ: mathInt}, nil
+		c.declFun(fn, []string{"Int", "Int"}, "Int")
+		return Val{T: app(fn, a.T, b.T), Typ: mathInt}, nil
 	}
 	var t types.Type
 	a, b, t, err = e.unifyInts(a, b)
@@ -435,6 +450,14 @@ func smtIntConst(s string) (*big.Int, bool) {
 
 func (e *SpecEnv) ident(name string) (Val, error) {
 	c := e.c
+	if e.bound[name] {
+		return e.vars[name], nil
+	}
+	if e.locals && e.f != nil && e.at != nil {
+		if v, ok := e.f.lookupLocal(name, e.at, e.cur); ok {
+			return v, nil
+		}
+	}
 	if v, ok := e.vars[name]; ok {
 		return v, nil
 	}
@@ -718,6 +741,7 @@ func (e *SpecEnv) call(n *ECall) (Val, error) {
 			}
 			ne := e.clone()
 			ne.cur = e.old
+			ne.locals = false
 			return ne.term(n.Args[0])
 		case "len", "cap":
 			v, err := e.term(n.Args[0])
@@ -797,6 +821,30 @@ func (e *SpecEnv) call(n *ECall) (Val, error) {
 				return Val{}, err
 			}
 			return Val{T: eq("(if.typ "+v.T+")", c.typeID(tt)), Typ: boolT}, nil
+		case "bytes":
+			v, err := e.term(n.Args[0])
+			if err != nil {
+				return Val{}, err
+			}
+			return e.bytesOf(v)
+		case "mkbytes":
+			if len(n.Args) != 3 {
+				return Val{}, fmt.Errorf("mkbytes(arr, off, len)")
+			}
+			a, err := e.term(n.Args[0])
+			if err != nil {
+				return Val{}, err
+			}
+			o, err := e.term(n.Args[1])
+			if err != nil {
+				return Val{}, err
+			}
+			l, err := e.term(n.Args[2])
+			if err != nil {
+				return Val{}, err
+			}
+			c.declMkbytes()
+			return Val{T: "(mkbytes " + a.T + " " + e.idx(o) + " " + e.idx(l) + ")", Typ: bytesT}, nil
 		case "bytesEq", "sameBytes":
 			// extensional equality of two byte slices' contents
 			a, err := e.term(n.Args[0])
@@ -835,7 +883,12 @@ func (e *SpecEnv) call(n *ECall) (Val, error) {
 				return Val{}, err
 			}
 			h := c.ghostHeap(name, srt)
-			return Val{T: "(select " + c.heapGet(e.cur, h, c.heapSort[h]) + " " + k + ")", Typ: t}, nil
+			gt := "(select " + c.heapGet(e.cur, h, c.heapSort[h]) + " " + k + ")"
+			if c.Mode == ModeBV && (g.Val == "mathint" || g.Val == "int") {
+				// counters kept in ghost state never approach 2^62 (stated assumption)
+				c.Decls = append(c.Decls, "(assert (and (bvsle (_ bv0 64) "+gt+") (bvsle "+gt+" (_ bv4611686018427387904 64))))")
+			}
+			return Val{T: gt, Typ: t}, nil
 		}
 		if u, ok := c.W.Specs.UFs[name]; ok {
 			return e.applyUF(u, n.Args)
@@ -846,14 +899,33 @@ func (e *SpecEnv) call(n *ECall) (Val, error) {
 			}
 			ne := e.clone()
 			ne.locals = false
+			ne.bound = map[string]bool{}
 			for i, p := range d.Params {
 				v, err := e.term(n.Args[i])
 				if err != nil {
 					return Val{}, err
 				}
+				if isUntyped(v) {
+					if pt, err := e.resolveType(p.Type); err == nil {
+						v = e.coerceBV(v, pt)
+					}
+				}
 				ne.vars[p.Name] = v
+				ne.bound[p.Name] = true
 			}
-			return ne.term(d.Body)
+			r, err := ne.term(d.Body)
+			if err == nil && d.Result != "" {
+				if rt, err2 := e.resolveType(d.Result); err2 == nil {
+					if isUntyped(r) {
+						r = e.coerceBV(r, rt)
+					} else if _, isInt := intInfoOf(rt); isInt && (c.Mode == ModeBV || rt != mathInt) {
+						r.Typ = rt
+					} else if !isInt {
+						r.Typ = rt
+					}
+				}
+			}
+			return r, err
 		}
 		// named type conversion or function in package scope
 		if e.pkg != nil {
@@ -1083,6 +1155,8 @@ func (e *SpecEnv) resolveType(s string) (types.Type, error) {
 		return mathInt, nil
 	case "bytes":
 		return bytesT, nil
+	case "bytearray":
+		return byteArrayT, nil
 	}
 	if strings.HasPrefix(s, "*") {
 		t, err := e.resolveType(s[1:])
@@ -1260,4 +1334,34 @@ func (e *SpecEnv) objTargets(r string, t types.Type) []havocTarget {
 		out = append(out, havocTarget{h, r})
 	}
 	return out
+}
+
+// byteArrayT is the pseudo-type of unbounded byte arrays (ghost stream data).
+var byteArrayT = types.NewArray(types.Typ[types.Byte], 1<<40)
+
+func (c *Ctx) declMkbytes() {
+	c.declFun("mkbytes", []string{"(Array " + c.idxSort() + " " + c.sortOf(types.Typ[types.Byte]) + ")", c.idxSort(), c.idxSort()}, "Bytes")
+	c.usedUF["mkbytes"] = true
+}
+
+// bytesOf abstracts the contents of a byte slice / string / array as a Bytes value.
+func (e *SpecEnv) bytesOf(v Val) (Val, error) {
+	c := e.c
+	switch u := v.Typ.Underlying().(type) {
+	case *types.Slice:
+		c.declMkbytes()
+		h, srt := c.memHeap(u.Elem())
+		return Val{T: "(mkbytes (select " + c.heapGet(e.cur, h, srt) + " (sl.base " + v.T + ")) (sl.off " + v.T + ") (sl.len " + v.T + "))", Typ: bytesT}, nil
+	case *types.Array:
+		c.declMkbytes()
+		return Val{T: "(mkbytes " + v.T + " " + c.idxLit(0) + " " + c.idxLit(u.Len()) + ")", Typ: bytesT}, nil
+	case *types.Basic:
+		c.declFun("strbytes", []string{"Str"}, "Bytes")
+		c.usedUF["strbytes"] = true
+		return Val{T: "(strbytes " + v.T + ")", Typ: bytesT}, nil
+	}
+	if v.Typ == bytesT {
+		return v, nil
+	}
+	return Val{}, fmt.Errorf("bytes() of %s", v.Typ)
 }
